@@ -1,4 +1,5 @@
 import MpVerif.C11.ModelParse
+import MpVerif.C11.ModelTrace
 import Std.Data.HashMap
 /-!
 Line driver for C11.  Input (one op per line):
@@ -39,15 +40,19 @@ def hexChar (n : Nat) : Char := if n < 10 then Char.ofNat (48 + n) else Char.ofN
 def hex (b : Bytes) : String :=
   String.ofList (b.foldr (fun c acc => hexChar (c.toNat / 16) :: hexChar (c.toNat % 16) :: acc) [])
 
-def parseKind : String → Option Kind
-  | "int" | "sint" | "sll" => some .int
-  | "dbl" | "sdbl" => some .dbl
-  | "str" | "sstr" => some .str
-  | "flag" => some .flag
+/-- kind and list-ness -/
+def parseKind : String → Option (Kind × Bool)
+  | "int" | "sint" | "sll" => some (.int, false)
+  | "dbl" | "sdbl" => some (.dbl, false)
+  | "str" | "sstr" => some (.str, false)
+  | "flag" => some (.flag, false)
+  | "lint" => some (.int, true)
+  | "ldbl" => some (.dbl, true)
+  | "lstr" => some (.str, true)
   | _ => none
 
 def parseChk : String → Option IntChk
-  | "any" => some .any | "nonneg" => some .nonneg | "bool01" => some .bool01
+  | "any" => some .any | "nonneg" => some .nonneg | "bool01" => some .bool01 | "mask15" => some .mask15
   | _ => none
 
 def parseBool : String → Option Bool
@@ -79,52 +84,99 @@ def showOutcome : Outcome → String
 def showErr : Err → String
   | .unknown n => s!"u{hex n}"
   | .flagArg n => s!"a{hex n}"
+  | .fileError n => s!"f{hex n}"
+  | .fileNesting n => s!"n{hex n}"
 
 def joinOr (dflt : String) (l : List String) : String :=
   if l.isEmpty then dflt else ",".intercalate l
 
 def showSlot (d : OptDecl) (sl : Slot) : String :=
-  if d.isWildcard then "w" ++ "".intercalate (sl.log.reverse.map (fun e => s!"({hex e.1}:{showVal e.2})"))
+  if d.logged then "w" ++ "".intercalate (sl.log.reverse.map (fun e => s!"({hex e.1}:{showVal e.2})"))
   else showVal sl.val
 
-def showResult (cid : String) (decls : List OptDecl) (r : Outcome × St) : String :=
-  match r.1 with
-  | o =>
-    let st := r.2
-    let ret := match o with | .ok => (if st.errs.isEmpty then "1" else "0") | _ => "-"
-    let errs := joinOr "-" (st.errs.reverse.map showErr)
-    let vals := joinOr "-" (decls.map (fun d => showSlot d (st.slot d.id)))
-    let echo := joinOr "-" (st.echo.reverse.map (fun e => match e.2 with
-      | some v => s!"{hex e.1}={showVal v}" | none => hex e.1))
-    s!"R {cid} {showOutcome o} {ret} | {errs} | {vals} | {echo}"
+def showResult (cid : String) (decls : List OptDecl) (isStd : Bool) (flags : Nat) (r : Outcome × St) : String :=
+  let o := r.1
+  let st := r.2
+  let ret := match o with | .ok => (if st.errs.isEmpty then "1" else "0") | _ => "-"
+  let errs := joinOr "-" (st.errs.reverse.map showErr)
+  let vals := joinOr "-" ((decls.filter (fun d => d.echoAs.isNone)).map (fun d => showSlot d (st.slot d.id)))
+  let echo := joinOr "-" (st.echo.reverse.map (fun e => match e.2 with
+    | some v => s!"{hex e.1}={showVal v}" | none => hex e.1))
+  let prints := match o with | .ok => (if isStd then versionPrints flags st else 0) | _ => 0
+  s!"R {cid} {showOutcome o} {ret} | {errs} | {vals} | {echo} | p{prints}"
 
-abbrev Tables := Std.HashMap String (List OptDecl)
+structure Tab where
+  decls : List OptDecl
+  nextId : Nat
+  isStd : Bool
+  solver : Bytes
+  flags : Nat := 0
 
-def handle (tabs : Tables) (line : String) : Tables × String :=
+structure DrvState where
+  tabs : Std.HashMap String Tab := {}
+  files : List (Bytes × Bytes) := []
+  trace : Bool := false     -- `drv_c11 trace`: print the model arms taken instead of the result (coverage mode)
+
+def findDecl (decls : List OptDecl) (name : Bytes) : Option OptDecl :=
+  decls.find? (fun d => d.name == name && d.echoAs.isNone)
+
+def handle (ds : DrvState) (line : String) : DrvState × String :=
   match line.trimAscii.toString.splitOn " " with
-  | ["T", tid] => (tabs.insert tid [], s!"T {tid}")
+  | ["T", tid] => ({ ds with tabs := ds.tabs.insert tid { decls := [], nextId := 0, isStd := false, solver := bs "dummy" } }, s!"T {tid}")
+  | ["S", tid, flags, solver] =>
+    match flags.toNat?, unhex solver with
+    | some f, some sv => ({ ds with tabs := ds.tabs.insert tid { decls := stdDecls f, nextId := 9, isStd := true, solver := sv, flags := f } }, s!"S {tid}")
+    | _, _ => (ds, "bad-op")
+  | ["F", name, content] =>
+    match unhex name, unhex content with
+    | some n, some c => ({ ds with files := (n, c) :: ds.files }, "F")
+    | _, _ => (ds, "bad-op")
   | ["O", tid, kind, chk, names] =>
-    match tabs[tid]?, parseKind kind, parseChk chk, (names.splitOn ",").mapM unhex with
-    | some decls, some k, some c, some (n :: syns) =>
-      let d : OptDecl := { id := decls.length, name := n, syns := syns, kind := k, chk := c }
-      (tabs.insert tid (decls ++ [d]), s!"O {tid} {decls.length}")
-    | _, _, _, _ => (tabs, "bad-op")
+    match ds.tabs[tid]?, parseKind kind, parseChk chk, (names.splitOn ",").mapM unhex with
+    | some t, some (k, isL), some c, some (n :: syns) =>
+      let d : OptDecl := { id := t.nextId, name := n, syns := syns, kind := k, chk := c, isList := isL }
+      ({ ds with tabs := ds.tabs.insert tid { t with decls := t.decls ++ [d], nextId := t.nextId + 1 } }, s!"O {tid} {t.nextId}")
+    | _, _, _, _ => (ds, "bad-op")
+  | ["A", tid, real, names] =>      -- AddOptionSynonyms_OutOfLine
+    match ds.tabs[tid]?, unhex real, (names.splitOn ",").mapM unhex with
+    | some t, some rn, some (n :: syns) =>
+      match findDecl t.decls rn with
+      | some r =>
+        let d : OptDecl := { id := r.id, name := n, syns := syns, kind := r.kind, chk := r.chk, isList := r.isList,
+                             echoAs := some (n ++ bs " (" ++ r.name ++ bs ")") }
+        ({ ds with tabs := ds.tabs.insert tid { t with decls := t.decls ++ [d] } }, s!"A {tid}")
+      | none => (ds, s!"A {tid}")
+    | _, _, _ => (ds, "bad-op")
+  | ["B", tid, where_, real, names] =>   -- AddOptionSynonyms_Inline_Front / _Back
+    match ds.tabs[tid]?, unhex real, (names.splitOn ",").mapM unhex with
+    | some t, some rn, some more =>
+      match findDecl t.decls rn with
+      | some r =>
+        let upd (d : OptDecl) : OptDecl :=
+          if d.name == rn && d.echoAs.isNone then
+            { d with syns := if where_ == "front" then more ++ d.syns else d.syns ++ more } else d
+        if r.isWildcard then (ds, "bad-op")
+        else ({ ds with tabs := ds.tabs.insert tid { t with decls := t.decls.map upd } }, s!"B {tid}")
+      | none => (ds, s!"B {tid}")
+    | _, _, _ => (ds, "bad-op")
   | ["C", cid, tid, ne, cl, th, solver, exe, env, argv] =>
-    match tabs[tid]?, parseBool ne, parseBool cl, parseBool th, unhex solver, unhex exe, parseEnv env, parseArgv argv with
-    | some decls, some ne, some cl, some th, some solver, some exe, some env, some argv =>
-      let call : Call := { table := buildTable decls, solverName := solver, exePath := exe, env := env,
-                           argv := argv, noEcho := ne, cmdLineFlag := cl, throwing := th }
-      (tabs, showResult cid decls (parseOptions call (initState decls)))
-    | _, _, _, _, _, _, _, _ => (tabs, "bad-op")
-  | _ => (tabs, "bad-op")
+    match ds.tabs[tid]?, parseBool ne, parseBool cl, parseBool th, unhex solver, unhex exe, parseEnv env, parseArgv argv with
+    | some t, some ne, some cl, some th, some solver, some exe, some env, some argv =>
+      if solver != t.solver then (ds, "bad-op") else
+      let call : Call := { table := buildTable t.decls, solverName := solver, exePath := exe, env := env,
+                           argv := argv, noEcho := ne, cmdLineFlag := cl, throwing := th, files := ds.files }
+      if ds.trace then (ds, "X " ++ ",".intercalate (callArms call (initState t.decls)).eraseDups)
+      else (ds, showResult cid t.decls t.isStd t.flags (parseOptions call (initState t.decls)))
+    | _, _, _, _, _, _, _, _ => (ds, "bad-op")
+  | _ => (ds, "bad-op")
 
-partial def loop (h : IO.FS.Stream) (out : IO.FS.Stream) (tabs : Tables) : IO Unit := do
+partial def loop (h : IO.FS.Stream) (out : IO.FS.Stream) (ds : DrvState) : IO Unit := do
   let line ← h.getLine
   if line.isEmpty then return ()
-  let (tabs', res) := handle tabs line
+  let (ds', res) := handle ds line
   out.putStrLn res
-  loop h out tabs'
+  loop h out ds'
 
-def main : IO Unit := do
+def main (args : List String) : IO Unit := do
   let out ← IO.getStdout
-  loop (← IO.getStdin) out {}
+  loop (← IO.getStdin) out { trace := args.contains "trace" }
